@@ -55,6 +55,7 @@ type meta struct {
 	On     bool     `json:"on"`
 	Chains []string `json:"chains"`
 	Total  int64    `json:"total"`
+	Moved  bool     `json:"moved"` // a MoveProviderStake in the last 24 h (rate limit active)
 }
 
 type line struct {
@@ -167,6 +168,7 @@ func (w *world) project(ln *line) {
 			mm.On = true
 			mm.Chains = append(mm.Chains, md.Chains...)
 			mm.Total = chainx.ClampInt(md.TotalDelegations.Amount)
+			mm.Moved = ts.Ctx.BlockTime().UTC().Unix()-int64(md.LastStakeMove) < 24*3600
 		}
 		ln.M[pn] = mm
 	}
